@@ -752,3 +752,87 @@ package kcp
 //@   modifies everything
 //@   loop 0 invariant s.imm() && !held(s.mu)
 //@   loop 1 invariant s.imm() && !held(s.mu)
+
+// ===================================================================================
+// crypt.go — C08. The four hand-unrolled CFB functions are proved by instantiation: one unit
+// per packet length 0..1500 and aliasing mode, every byte, the block cipher (an uninterpreted
+// permutation) and the key symbolic. The spec functions cfbenc/cfbdec are textbook full-block
+// CFB with the package's fixed IV and a truncated final block (NIST SP 800-38A).
+// ===================================================================================
+//
+//@ func encrypt16
+//@   requires len(dst) >= len(src) && len(buf) >= 16 && block != nil
+//@   modifies dst[..], buf[..]
+//@   ensures @C08 [equals-textbook-CFB] cfbenc(block, dst, src, 16)
+//@ func decrypt16
+//@   requires len(dst) >= len(src) && len(buf) >= 32 && block != nil
+//@   modifies dst[..], buf[..]
+//@   ensures @C08 [equals-textbook-CFB] cfbdec(block, dst, src, 16)
+//@ func encrypt8
+//@   requires len(dst) >= len(src) && len(buf) >= 8 && block != nil
+//@   modifies dst[..], buf[..]
+//@   ensures @C08 [equals-textbook-CFB] cfbenc(block, dst, src, 8)
+//@ func decrypt8
+//@   requires len(dst) >= len(src) && len(buf) >= 16 && block != nil
+//@   modifies dst[..], buf[..]
+//@   ensures @C08 [equals-textbook-CFB] cfbdec(block, dst, src, 8)
+//
+// The stream, xor and pass-through ciphers, also by instantiation (every length 0..1500, in place
+// and out of place). Each is pinned to its exact byte-level function; Encrypt and Decrypt have the
+// same specification and xor8 is an involution, so decrypt(encrypt(x)) == x.
+//@ func salsa20BlockCrypt.Encrypt
+//@   requires len(dst) >= len(src)
+//@   modifies dst[..]
+//@   ensures @C08 [short-packet-passes-through] len(src) < 8 ==> each(i, 0, len(src), dst[i] == old(src[i]))
+//@   ensures @C08 [nonce-kept-payload-xor-keystream] len(src) >= 8 ==> each(i, 0, 8, dst[i] == old(src[i])) && each(i, 8, len(src), dst[i] == xor8(old(src[i]), old(salsaks(c.key, i - 8, src))))
+//@ func salsa20BlockCrypt.Decrypt
+//@   requires len(dst) >= len(src)
+//@   modifies dst[..]
+//@   ensures @C08 [short-packet-passes-through] len(src) < 8 ==> each(i, 0, len(src), dst[i] == old(src[i]))
+//@   ensures @C08 [nonce-kept-payload-xor-keystream] len(src) >= 8 ==> each(i, 0, 8, dst[i] == old(src[i])) && each(i, 8, len(src), dst[i] == xor8(old(src[i]), old(salsaks(c.key, i - 8, src))))
+//@ func simpleXORBlockCrypt.Encrypt
+//@   requires len(dst) >= len(src)
+//@   modifies dst[..]
+//@   ensures @C08 [xor-with-table] each(i, 0, len(src), dst[i] == xor8(old(src[i]), old(c.xortbl[i])))
+//@ func simpleXORBlockCrypt.Decrypt
+//@   requires len(dst) >= len(src)
+//@   modifies dst[..]
+//@   ensures @C08 [xor-with-table] each(i, 0, len(src), dst[i] == xor8(old(src[i]), old(c.xortbl[i])))
+//@ func noneBlockCrypt.Encrypt
+//@   requires len(dst) >= len(src)
+//@   modifies dst[..]
+//@   ensures @C08 [identity] each(i, 0, len(src), dst[i] == old(src[i]))
+//@ func noneBlockCrypt.Decrypt
+//@   requires len(dst) >= len(src)
+//@   modifies dst[..]
+//@   ensures @C08 [identity] each(i, 0, len(src), dst[i] == old(src[i]))
+//
+// The dispatchers and the blockCrypt wrapper (symbolic length: cfbenc/cfbdec are carried as an
+// uninterpreted relation from the callee's postcondition to the wrapper's). bcinv is the object
+// invariant of blockCrypt: its fields are written by newBlockCrypt only (checked: immutable).
+//@ immutable blockCrypt.encbuf blockCrypt.decbuf blockCrypt.block blockCrypt.blockSize
+//@ constructor newBlockCrypt
+//@ pred bcinv(c *blockCrypt) = c.block != nil && (blocksize(c.block) == 8 || blocksize(c.block) == 16) && len(c.encbuf) >= blocksize(c.block) && len(c.decbuf) >= 2 * blocksize(c.block)
+//@ func encrypt
+//@   requires len(dst) >= len(src) && block != nil && (blocksize(block) == 8 || blocksize(block) == 16) && len(buf) >= blocksize(block)
+//@   modifies dst[..], buf[..]
+//@   ensures @C08 [dispatch-8] blocksize(block) == 8 ==> cfbenc(block, dst, src, 8)
+//@   ensures @C08 [dispatch-16] blocksize(block) == 16 ==> cfbenc(block, dst, src, 16)
+//@ func decrypt
+//@   requires len(dst) >= len(src) && block != nil && (blocksize(block) == 8 || blocksize(block) == 16) && len(buf) >= 2 * blocksize(block)
+//@   modifies dst[..], buf[..]
+//@   ensures @C08 [dispatch-8] blocksize(block) == 8 ==> cfbdec(block, dst, src, 8)
+//@   ensures @C08 [dispatch-16] blocksize(block) == 16 ==> cfbdec(block, dst, src, 16)
+//@ func blockCrypt.Encrypt
+//@   requires bcinv(c) && len(dst) >= len(src)
+//@   modifies dst[..], c.encbuf[..], c.encMu
+//@   ensures @C08 [wrapper-8] blocksize(c.block) == 8 ==> cfbenc(c.block, dst, src, 8)
+//@   ensures @C08 [wrapper-16] blocksize(c.block) == 16 ==> cfbenc(c.block, dst, src, 16)
+//@ func blockCrypt.Decrypt
+//@   requires bcinv(c) && len(dst) >= len(src)
+//@   modifies dst[..], c.decbuf[..], c.decMu
+//@   ensures @C08 [wrapper-8] blocksize(c.block) == 8 ==> cfbdec(c.block, dst, src, 8)
+//@   ensures @C08 [wrapper-16] blocksize(c.block) == 16 ==> cfbdec(c.block, dst, src, 16)
+//@ func newBlockCrypt
+//@   requires block != nil && (blocksize(block) == 8 || blocksize(block) == 16)
+//@   ensures @C08 [establishes-bcinv] typeis(result, ptr_blockCrypt) && bcinv(unboxptr(result, blockCrypt))
